@@ -319,16 +319,48 @@ func (la *LockAnalysis) closureSites(cl *ssa.Function, mc *ssa.MakeClosure, oute
 					// assumed to be invoked synchronously by the callee while the caller's locks are still held
 					la.callers[cl] = append(la.callers[cl], callerSite{r, "callback passed in " + FuncName(outer)})
 				}
+			case *ssa.MakeClosure:
+				// captured by another closure: continue at the corresponding free variable
+				inner, _ := r.Fn.(*ssa.Function)
+				for i, bnd := range r.Bindings {
+					if bnd == v && inner != nil && i < len(inner.FreeVars) && depth < 4 {
+						fv := inner.FreeVars[i]
+						if fv.Referrers() != nil {
+							saved := outer
+							outer = inner
+							follow(fv, *fv.Referrers(), depth+1)
+							outer = saved
+						}
+					}
+				}
 			case *ssa.Store:
 				if al, ok := r.Addr.(*ssa.Alloc); ok && r.Val == v && depth < 3 {
-					// local variable holding the closure: follow its loads
-					if al.Referrers() != nil {
-						for _, ld := range *al.Referrers() {
-							if u, ok := ld.(*ssa.UnOp); ok && u.Op == token.MUL && u.Referrers() != nil {
-								follow(u, *u.Referrers(), depth+1)
+					// local variable holding the closure: follow its loads, also inside closures that capture the variable
+					var cell func(addr ssa.Value, d int)
+					cell = func(addr ssa.Value, d int) {
+						if addr.Referrers() == nil || d > 3 {
+							return
+						}
+						for _, ld := range *addr.Referrers() {
+							switch ld := ld.(type) {
+							case *ssa.UnOp:
+								if ld.Op == token.MUL && ld.Referrers() != nil {
+									follow(ld, *ld.Referrers(), depth+1)
+								}
+							case *ssa.MakeClosure:
+								inner, _ := ld.Fn.(*ssa.Function)
+								for i, bnd := range ld.Bindings {
+									if bnd == addr && inner != nil && i < len(inner.FreeVars) {
+										saved := outer
+										outer = inner
+										cell(inner.FreeVars[i], d+1)
+										outer = saved
+									}
+								}
 							}
 						}
 					}
+					cell(al, 0)
 				} else {
 					la.callers[cl] = append(la.callers[cl], callerSite{nil, "stored in " + FuncName(outer)})
 				}
@@ -652,4 +684,166 @@ func (la *LockAnalysis) Reentries(fn *ssa.Function) []Reentry {
 		}
 	}
 	return out
+}
+
+// Universe lists every lock key acquired somewhere in the given functions.
+func (la *LockAnalysis) Universe(fns []*ssa.Function) []string {
+	set := map[string]bool{}
+	for _, fn := range fns {
+		for _, b := range fn.Blocks {
+			for _, in := range b.Instrs {
+				if ci, ok := in.(ssa.CallInstruction); ok {
+					if key, acq, _, ok := lockOp(ci); ok && acq {
+						set[key] = true
+					}
+				}
+			}
+		}
+	}
+	return SortedKeys(set)
+}
+
+// HeldSet returns the locks (from the candidates) certainly held, in any mode, whenever ins executes (caller context included).
+func (la *LockAnalysis) HeldSet(ins ssa.Instruction, candidates []string) map[string]bool {
+	out := map[string]bool{}
+	for _, k := range candidates {
+		if ok, _ := la.Held(ins, k, ReadHeld); ok {
+			out[k] = true
+		}
+	}
+	return out
+}
+
+// OrderEdge says: somewhere lock To is acquired while From is held.
+type OrderEdge struct {
+	From, To string
+	Site     ssa.Instruction
+}
+
+// OrderEdges collects the lock-order edges of the given functions (direct acquisitions and acquisitions by static callees).
+func (la *LockAnalysis) OrderEdges(fns []*ssa.Function) []OrderEdge {
+	var out []OrderEdge
+	seen := map[[2]string]bool{}
+	for _, fn := range fns {
+		for _, b := range fn.Blocks {
+			for _, in := range b.Instrs {
+				ci, ok := in.(ssa.CallInstruction)
+				if !ok {
+					continue
+				}
+				if _, isGo := ci.(*ssa.Go); isGo {
+					continue
+				}
+				if _, isDefer := ci.(*ssa.Defer); isDefer {
+					continue
+				}
+				held := la.At(ci)
+				if len(held) == 0 {
+					continue
+				}
+				acq := map[string]LockMode{}
+				if key, a, mode, ok := lockOp(ci); ok {
+					if a {
+						acq[key] = mode
+					}
+				} else if sc := ci.Common().StaticCallee(); sc != nil {
+					acq = la.Acquires(sc)
+				}
+				for to := range acq {
+					for from := range held {
+						if from == to || seen[[2]string{from, to}] {
+							continue
+						}
+						seen[[2]string{from, to}] = true
+						out = append(out, OrderEdge{from, to, ci})
+					}
+				}
+			}
+		}
+	}
+	sort.Slice(out, func(i, j int) bool {
+		if out[i].From != out[j].From {
+			return out[i].From < out[j].From
+		}
+		return out[i].To < out[j].To
+	})
+	return out
+}
+
+// OrderCycle returns a cycle in the lock-order graph (nil if acyclic).
+func OrderCycle(edges []OrderEdge) []string {
+	adj := map[string][]string{}
+	for _, e := range edges {
+		adj[e.From] = append(adj[e.From], e.To)
+	}
+	color := map[string]int{}
+	var path []string
+	var cyc []string
+	var dfs func(n string) bool
+	dfs = func(n string) bool {
+		color[n] = 1
+		path = append(path, n)
+		for _, m := range adj[n] {
+			if color[m] == 1 {
+				for i, p := range path {
+					if p == m {
+						cyc = append(append([]string{}, path[i:]...), m)
+						return true
+					}
+				}
+			}
+			if color[m] == 0 && dfs(m) {
+				return true
+			}
+		}
+		color[n] = 2
+		path = path[:len(path)-1]
+		return false
+	}
+	var nodes []string
+	for n := range adj {
+		nodes = append(nodes, n)
+	}
+	sort.Strings(nodes)
+	for _, n := range nodes {
+		if color[n] == 0 && dfs(n) {
+			return cyc
+		}
+	}
+	return nil
+}
+
+// ReachedOnlyFrom: every chain of callers of fn ends in one of the allowed roots (used to recognise single-threaded start-up code).
+func (la *LockAnalysis) ReachedOnlyFrom(fn *ssa.Function, allowed map[*ssa.Function]bool) bool {
+	seen := map[*ssa.Function]bool{}
+	var up func(f *ssa.Function, depth int) bool
+	up = func(f *ssa.Function, depth int) bool {
+		if allowed[f] {
+			return true
+		}
+		if seen[f] {
+			return true
+		}
+		seen[f] = true
+		if depth > 10 {
+			return false
+		}
+		if _, esc := la.escapes[f]; esc {
+			return false
+		}
+		sites := la.callers[f]
+		if len(sites) == 0 {
+			return false
+		}
+		for _, s := range sites {
+			if s.site == nil {
+				return false
+			}
+			if !up(s.site.Parent(), depth+1) {
+				return false
+			}
+		}
+		return true
+	}
+	return up(fn, 0)
 }
